@@ -44,15 +44,19 @@ for _e in ('begin_request', 'request_data', 'end_request', 'begin_response', 're
 # call-site views of the stream operations (bodies verified in specs/httpstream.py) with the wiring ghosts
 Assumed(httpstream.SM, 'Stream.write_request', {'self': TObj('Stream'), 'request': TObj('HTTPRequest'), 'full_url': TBool()}, name='Stream.write_request@call', defaults={'full_url': False},
         modifies=['self.g_requests_written', 'self.g_write_listeners_at_write'],
+        requires=['request._url_info is not None', 'truthy(request._url)', 'truthy(request.method)', 'truthy(request.version)'],
         ensures=['self.g_requests_written == old(self.g_requests_written) + 1', 'self.g_write_listeners_at_write == self._data_event_dispatcher.g_write_listeners'],
-        raises={'NetworkError': [], 'AssertionError': []})
+        raises={'NetworkError': []})
 Assumed(httpstream.SM, 'Stream.write_body', {'self': TObj('Stream'), 'file': TAny(), 'length': TOpt(TInt())}, defaults={'length': None}, raises={'NetworkError': []})
 Assumed(httpstream.SM, 'Stream.read_response', {'self': TObj('Stream'), 'response': TOpt(TObj('HTTPResponse'))}, name='Stream.read_response@call', ret=TObj('HTTPResponse'), defaults={'response': None},
         modifies=['self.g_responses_read', 'self.g_read_listeners_at_read'],
         ensures=['self.g_responses_read == old(self.g_responses_read) + 1', 'self.g_read_listeners_at_read == self._data_event_dispatcher.g_read_listeners'],
         raises={'NetworkError': [], 'ProtocolError': []})
 ST_ = 'self._stream'
-Contract(CL_, 'Session.start', dict(S, request=TObj('HTTPRequest')), ret=TObj('HTTPResponse'), prop='C04', name='HTTPSessionObj.start',
+Contract(CL_, 'Session.start', dict(S, request=TObj('HTTPRequest')), ret=TObj('HTTPResponse'), prop='C04/C09', name='HTTPSessionObj.start',
+    requires=[('fresh-session', 'self._session_state == 1 and self._request is None'),
+              ('sendable-request', 'request._url_info is not None and truthy(request._url) and truthy(request.method) and truthy(request.version)'),
+              ('body-has-a-length', 'implies(truthy(request.body), norm("Content-Length") in request.fields.map and numeral(request.fields.map[norm("Content-Length")]))')],
     names={'self.Event': None},
     modifies=['self._request', 'self._stream', 'self._response', 'self._session_state', 'request.address', 'self.event_dispatcher.g_log', 'all_of("HDispatcher.g_read_listeners")',
               'all_of("HDispatcher.g_write_listeners")', 'all_of("Stream.g_requests_written")', 'all_of("Stream.g_responses_read")', 'all_of("Stream.g_read_listeners_at_read")',
@@ -63,4 +67,4 @@ Contract(CL_, 'Session.start', dict(S, request=TObj('HTTPRequest')), ret=TObj('H
              ('response-names-its-request', 'result.request == request'),
              ('three-session-events', 'len(self.event_dispatcher.g_log) == len(old(self.event_dispatcher.g_log)) + 3'),
              ('last-event-is-begin-response', 'self.event_dispatcher.g_log[len(self.event_dispatcher.g_log) - 1] == "begin_response"')],
-    raises=dict(NET, RuntimeError=[], AssertionError=[], KeyError=[], ValueError=[]))
+    raises=dict(NET))
